@@ -959,7 +959,7 @@ def nonzero_inverse_unwrap(repo, b, bb):
     return reached
 
 
-def rule_nopanic_core(prop, repo_rel, entries, cv_factory):
+def rule_nopanic_core(prop, repo_rel, entries, cv_factory, skip=None, assumed_producers=(), include_api=False):
     """No panic site in the arithmetic reached from the given entry points (release MIR): every bounds / overflow / division
     assertion is discharged by interval analysis, and there is no unwrap / expect / panic! outside the conversion layer
     (decided per abstract input by R-TOTAL) and parameterless constant initialisers."""
@@ -987,6 +987,8 @@ def rule_nopanic_core(prop, repo_rel, entries, cv_factory):
         irec = F.instances.get(iname)
         if not irec or not irec.get("expanded"):
             continue
+        if skip and irec.get("def") in F.bodies and skip(irec["def"].split("::{closure")[0]):
+            continue          # a module this rule does not look into: neither its sites nor what it calls
         bdef = F.bodies.get(irec.get("def"))
         live_bbs = None
         if bdef is not None:
@@ -1010,7 +1012,7 @@ def rule_nopanic_core(prop, repo_rel, entries, cv_factory):
         q = d.split("::{closure")[0]
         return q if q in F.bodies else d
     # the conversion layer (what the byte machine analyses in place) is R-TOTAL's; a closure belongs to its function
-    core = sorted(d for d in defs if not cv.policy(F.bodies[parent_of(d)]) and F.bodies[d].rec["kind"] in ("Fn", "AssocFn", "Closure"))
+    core = sorted(d for d in defs if (include_api or not cv.policy(F.bodies[parent_of(d)])) and F.bodies[d].rec["kind"] in ("Fn", "AssocFn", "Closure") and not (skip and skip(parent_of(d))))
     asserts = []
     calls = []
     for d in core:
@@ -1048,6 +1050,16 @@ def rule_nopanic_core(prop, repo_rel, entries, cv_factory):
         nparams = len(rb.rec.get("inputs") or []) if rb.rec.get("inputs") is not None else rb.arg_count
         is_const_init = nparams == 0
         key = "%s:nopanic:%s→%s" % (prop, d, dd.split("<")[0].split("::")[-1] or "panic")
+        if assumed_producers and (t.get("fn") or {}).get("name") in ("unwrap", "expect"):
+            # the value comes straight out of a function whose None case is a numerical impossibility stated as an assumption
+            try:
+                v0 = strip(repo.tb(b).operand(t["args"][0], bb, len(b.blocks[bb]["stmts"])))
+            except Exception:
+                v0 = ("unknown",)
+            if v0[0] == "call" and v0[1].d in assumed_producers:
+                R.assume(key, assumed_producers[v0[1].d])
+                R.ok()
+                continue
         if (t.get("fn") or {}).get("name") in ("unwrap", "expect") and lossless_conversion_unwrap(b, bb):
             R.ok(sample={"site": loc_of(b, bb), "fn": d, "accepted_because": "integer conversion whose source range is inside the destination range on this target: always Ok"})
             continue
